@@ -331,6 +331,8 @@ def setup_all():
     for prop, cfg in props.items():
         try:
             regen(prop, log)
+            for cmd in cfg.get("pregen", []):
+                sh([c.replace("{REPO}", REPO) for c in cmd], cwd=VERIF, env=GOENV, timeout=600)
         except Exception as e:
             print("setup: regen %s: %s" % (prop, e))
         targets += list(cfg["lean_modules"])
@@ -382,6 +384,16 @@ def main():
 
     # ---------------- 1. regenerate, build, audit
     gen_ok, gen_msgs, n_gen = regen(prop, log)
+    # further generators of this property (CFG["pregen"] = [[cmd, arg, …], …]; {REPO} = repository under test,
+    # cwd = /verif); they write their own files under lean/SaramaVerif/Gen/
+    for cmd in cfg.get("pregen", []):
+        cmd = [c.replace("{REPO}", REPO) for c in cmd]
+        with Lock("lake"):
+            rc, out, dt = sh(cmd, cwd=VERIF, env=GOENV, timeout=600)
+        log("pregen %s rc=%d %.1fs" % (" ".join(cmd)[:80], rc, dt))
+        if rc != 0:
+            gen_ok = False
+            gen_msgs.append("EXTRACT-ERROR pregen %s: %s" % (cmd[0], out[-600:].replace("\n", " | ")))
     if not gen_ok:
         for m in gen_msgs:
             proof_broken.append({"what": "extraction", "detail": m})
